@@ -552,7 +552,7 @@ parser! {
               EnumeratedValuesInitializer {
                 values: values.values,
                 // TODO initial value
-                initial_value: None,
+                initial_value: Some(spec_init.1),
             })
           },
         }
